@@ -262,7 +262,9 @@ def sub_rules(ctx, module, rule_ids):
 
 # ------------------------------------------------------------------ invariant checkers (class B)
 def inv_king(ctx):
-    v = sub_rules(ctx, "C06", {"C06.R2", "C06.R3"}) + sub_rules(ctx, "C05", {"C05.R7"})
+    # a king is present: accepted positions have both kings and the side not to move is not in check (C06), and a king can never be captured
+    # afterwards because check detection is exact, from scratch and incrementally (C03.R5, R6), so legal moves never leave the mover in check
+    v = sub_rules(ctx, "C06", {"C06.R2", "C06.R3"}) + sub_rules(ctx, "C05", {"C05.R7"}) + sub_rules(ctx, "C03", {"C03.R5", "C03.R6"})
     return [f"{x.rule}: {x.what[:160]}" for x in v]
 
 
@@ -600,7 +602,35 @@ def chk_parse_fen_bounds(ctx):
                     r = Rg.rng(eng.freeze(lf.state, v))
                     if r is None or r[0] < 0 or r[1] > 7:
                         out.append(f"parse_fen: loop invariant file <= 7 not re-established: file := {T.show(v)[:80]} in {r}")
-    # the first `ranks.next().unwrap()` is on a fresh 8-element iterator; `File::from_u8(file).unwrap()` needs file <= 7 (the invariant); file - b'a' under the a..=h pattern
+    # the first `ranks.next().unwrap()` is on a fresh 8-element iterator; `File::from_u8(file).unwrap()` needs file <= 7 (the invariant).
+    # `File::from_u8(byte - b'a').unwrap()` in the en-passant field: every such call must be guarded by comparisons that confine a byte to 'a'..='h'
+    for bi, t_ in P.calls(key):
+        if not t_["f"].get("fn", "").endswith("File::from_u8"):
+            continue
+        d = k2.describe_operand(P, body, t_["a"][0])
+        x = d[1] if d[0] == "proj" else d
+        if not (x[0] == "bin" and x[1].startswith("Sub") and x[3] == ("int", 97, "u8")):
+            continue
+        lo, hi = None, None
+        for g_, taken, _ in k2.guards_of(P, key, bi):
+            if g_[0] != "bin" or g_[1] not in ("Le", "Lt", "Ge", "Gt"):
+                continue
+            truth = taken != 0
+            a_, b_ = g_[2], g_[3]
+            op = g_[1]
+            if a_[0] == "int" and b_[0] == "place":          # c op x  ->  x op' c
+                a_, b_, op = b_, a_, {"Le": "Ge", "Lt": "Gt", "Ge": "Le", "Gt": "Lt"}[op]
+            if not (a_[0] == "place" and b_[0] == "int"):
+                continue
+            if not truth:
+                op = {"Le": "Gt", "Lt": "Ge", "Ge": "Lt", "Gt": "Le"}[op]
+            c_ = b_[1]
+            if op in ("Ge", "Gt"):
+                lo = max(lo if lo is not None else 0, c_ + (1 if op == "Gt" else 0))
+            else:
+                hi = min(hi if hi is not None else 255, c_ - (1 if op == "Lt" else 0))
+        if lo is None or hi is None or lo < 97 or hi > 104:
+            out.append(f"parse_fen: File::from_u8(byte - b'a').unwrap() at block {bi} is not confined to 'a'..='h' by the comparisons in front of it (bounds found: {lo}..{hi})")
     return out
 
 
